@@ -49,7 +49,7 @@ impl Stage for Sizes {
         }
     }
     fn cases(&self, tier: Tier) -> u32 {
-        tier.pick(1500, 20_000)
+        tier.pick(1500, 200_000)
     }
     fn strategy(&self, _t: Tier) -> BoxedStrategy<Case> {
         let q = (0u8..5, super::c13::want(), prop_oneof![Just(0u8), Just(2u8), Just(8u8), 0u8..=32, Just(32u8)], any::<bool>())
